@@ -15,8 +15,8 @@ import (
 
 // classes each property's check is entitled to report
 var reportable = map[string]map[string]bool{
-	"C15": {"result-differs": true, "panic": true, "input-modified": true, "aliasing": true, "deadlock": true, "livelock": true, "goroutine-panic": true},
-	"C16": {"result-differs": true, "panic": true, "deadlock": true, "livelock": true, "goroutine-panic": true, "goroutine-left-running": true, "data-race": true},
+	"C15": {"result-differs": true, "result-changed-later": true, "panic": true, "input-modified": true, "aliasing": true, "deadlock": true, "livelock": true, "goroutine-panic": true},
+	"C16": {"result-differs": true, "result-changed-later": true, "panic": true, "deadlock": true, "livelock": true, "goroutine-panic": true, "goroutine-left-running": true, "data-race": true},
 	"C18": {"model-divergence": true, "panic": true, "deadlock": true, "livelock": true, "goroutine-panic": true},
 }
 
@@ -50,6 +50,9 @@ type Stats struct {
 	RefUnavailable int
 	DistinctCalls  map[string]bool
 	LeaksNonModule int
+	BoundaryGroups int
+	BoundaryCalls  int
+	FairKicks      int
 }
 
 func newStats() *Stats {
@@ -104,6 +107,7 @@ func (st *Stats) addRun(seg *Segment, race bool, out *RunOut) {
 	st.Faults["stall"] += r.StallsFired
 	st.Faults["preempt"] += r.Preempts
 	st.Faults["clock_jump"] += r.ClockJumps
+	st.FairKicks += r.FairKicks
 	if seg.MapMode != 0 {
 		st.Faults["map_order"] += r.MapRanges
 	}
@@ -155,16 +159,20 @@ type found struct {
 }
 
 type Checker struct {
-	prop   string
-	tier   string
-	seed   uint64
-	b      *Build
-	ex     *Executor
-	refs   *RefTable
-	st     *Stats
-	known  *FindingsFile
-	start  time.Time
-	budget time.Duration
+	prop       string
+	tier       string
+	seed       uint64
+	b          *Build
+	ex         *Executor
+	refs       *RefTable
+	st         *Stats
+	known      *FindingsFile
+	start      time.Time
+	budget     time.Duration
+	shrinkWall time.Duration
+	wmu        sync.Mutex
+	widths     map[string]int
+	probes     int
 }
 
 // runScenario executes all segments of a scenario (sequentially: they are
@@ -335,6 +343,8 @@ func describeCall(c *Call) string {
 				ops = append(ops, fmt.Sprintf("set(%d,%v)", o.A, o.V))
 			case "get":
 				ops = append(ops, fmt.Sprintf("get(%d)", o.A))
+			case "itern":
+				ops = append(ops, fmt.Sprintf("iter×%d", o.A))
 			default:
 				ops = append(ops, o.Op)
 			}
@@ -344,6 +354,8 @@ func describeCall(c *Call) string {
 		return fmt.Sprintf("rs(gf=%v,h=%d,n=%d,ecc=%d)", c.GF, c.H, len(c.Ints), c.I1)
 	case "scale":
 		return fmt.Sprintf("scale(%s,%d,%d,share=%v)", describeCall(c.Src), c.I1, c.I2, c.Share)
+	case "same":
+		return fmt.Sprintf("observe-shared(%s)", describeCall(c.Src))
 	}
 	s := fmt.Sprintf("%s(%s", c.Fn, strconv.QuoteToASCII(head(string(c.B), 24)))
 	if len(c.B) > 24 {
